@@ -50,8 +50,9 @@ type CorrectionOptions struct {
 // methods.
 func WithOptions(opts *CorrectionOptions) schema.Option {
 	return func(o interface{}) {
-		o2 := o.(*CorrectionOptions)
-		*o2 = *opts
+		if o2 := o.(*CorrectionOptions); opts != nil {
+			*o2 = *opts
+		}
 	}
 }
 
@@ -343,7 +344,9 @@ func (inv *Invoice) correctionDef() *tax.CorrectionDefinition {
 
 func prepareCorrectionOptions(o *CorrectionOptions, opts ...schema.Option) error {
 	for _, row := range opts {
-		row(o)
+		if row != nil {
+			row(o)
+		}
 	}
 
 	// Copy over the stamps from the previous header
